@@ -73,3 +73,74 @@ Example C02_example_not_tight :
   tightb acc 10 [JObj o1] false (TObj [(s_ "a", TUnion [TInt; TBool])]) = false
   /\ tightb acc 10 [JObj o1] false (TObj [(s_ "a", TOpt TInt)]) = false.
 Proof. vm_compute. split; reflexivity. Qed.
+
+(* ---- the SHARPER statement (Sem/Tight2.v, Proofs/Tight2Props.v): str needs a REASON among the strings observed at the
+   position — a plain string (one no registered pseudo-type accepts) of length >= 20, more than 15 distinct plain strings,
+   or two strings detected as different pseudo-types.  tightb2 = tightb with only that clause changed; it implies tightb;
+   each reason is shown necessary; a premature overflow (str for 15 distinct short strings seen 16 times) is rejected.
+   Remaining laxity: the mixed reason also licenses str where the replacement table would resolve the two pseudo-types. ---- *)
+From J2M.Sem Require Import Tight2.
+From J2M.Proofs Require Import Tight2Props.
+
+Theorem C02_generate_tight2 :
+  forall (registry : list pseudo) (replaces : list (pseudo * pseudo)) (accepts : pseudo -> str -> bool)
+         (n_regex : nat) (key_matches : nat -> str -> bool) (dict_fields : list str) 
+         (fuel : nat) (samples : list (list (str * json))) (fs : fields),
+       samples <> nil ->
+       Forall (fun s : list (str * json) => wf_json (JObj s) = true) samples ->
+       generate registry replaces accepts n_regex key_matches dict_fields fuel samples = Some fs ->
+       exists n : nat,
+         forall k : nat, n <= k -> tightb2 registry accepts k (map JObj samples) false (TObj fs) = true.
+Proof. exact Tight2Props.generate_tight2. Qed.
+
+Theorem C02_tightb2_tightb :
+  forall (registry : list pseudo) (accepts : pseudo -> str -> bool) (k : nat) 
+         (obs : list json) (m : bool) (t : ty),
+       tightb2 registry accepts k obs m t = true -> tightb accepts k obs m t = true.
+Proof. exact Tight2Props.tightb2_tightb. Qed.
+
+Theorem C02_tight2_iff :
+  forall (registry : list pseudo) (accepts : pseudo -> str -> bool) (t : ty) 
+         (obs : list json) (m : bool),
+       tight2 registry accepts t obs m <->
+       (exists n : nat, forall k : nat, n <= k -> tightb2 registry accepts k obs m t = true).
+Proof. exact Tight2Props.tight2_iff. Qed.
+
+Theorem C02_weak_reading_refuted :
+  let obs := map JObj (x_samples (x_letters 2)) in
+       tightb x_acc 10 obs false (TObj ((x_k, TStr) :: nil)) = true /\
+       tightb2 x_reg x_acc 10 obs false (TObj ((x_k, TStr) :: nil)) = false /\
+       x_gen nil 10 (x_samples (x_letters 2)) = Some ((x_k, TLit false (x_letters 2)) :: nil) /\
+       tightb2 x_reg x_acc 10 obs false (TObj ((x_k, TLit false (x_letters 2)) :: nil)) = true.
+Proof. exact Tight2Props.weak_reading_refuted. Qed.
+
+Theorem C02_premature_overflow_rejected :
+  let obs := map JObj (x_samples x_16_15) in
+       List.length x_16_15 = 16 /\
+       tightb x_acc 10 obs false (TObj ((x_k, TStr) :: nil)) = true /\
+       tightb2 x_reg x_acc 10 obs false (TObj ((x_k, TStr) :: nil)) = false /\
+       x_gen nil 10 (x_samples x_16_15) = Some ((x_k, TLit false (x_letters 15)) :: nil) /\
+       tightb2 x_reg x_acc 10 obs false (TObj ((x_k, TLit false (x_letters 15)) :: nil)) = true.
+Proof. exact Tight2Props.premature_overflow_rejected. Qed.
+
+Theorem C02_reason_long_needed :
+  let ss := repeat 97%N 20 :: nil in
+       x_gen nil 10 (x_samples ss) = Some ((x_k, TStr) :: nil) /\
+       x_reasons ss = (true, false, false) /\
+       tightb2 x_reg x_acc 10 (map JObj (x_samples ss)) false (TObj ((x_k, TStr) :: nil)) = true.
+Proof. exact Tight2Props.reason_long_needed. Qed.
+
+Theorem C02_reason_many_needed :
+  let ss := x_letters 16 in
+       x_gen nil 10 (x_samples ss) = Some ((x_k, TStr) :: nil) /\
+       x_reasons ss = (false, true, false) /\
+       tightb2 x_reg x_acc 10 (map JObj (x_samples ss)) false (TObj ((x_k, TStr) :: nil)) = true.
+Proof. exact Tight2Props.reason_many_needed. Qed.
+
+Theorem C02_reason_mixed_needed :
+  let ss := (49%N :: nil) :: (49%N :: 46%N :: 53%N :: nil) :: nil in
+       x_gen nil 10 (x_samples ss) = Some ((x_k, TStr) :: nil) /\
+       x_reasons ss = (false, false, true) /\
+       tightb2 x_reg x_acc 10 (map JObj (x_samples ss)) false (TObj ((x_k, TStr) :: nil)) = true.
+Proof. exact Tight2Props.reason_mixed_needed. Qed.
+
